@@ -45,6 +45,12 @@ func LoadIndex(idx index.Index, r io.Reader, opts ...Option) error {
 	o := ApplyOptions(opts...)
 
 	reader := internalio.ToByteReadSeeker(r)
+	// The CAR starts where r stands, which need not be position 0 of a seekable source (a CAR
+	// stored behind other data): offsets are taken relative to that position.
+	start, err := reader.Seek(0, io.SeekCurrent)
+	if err != nil {
+		return err
+	}
 	pragma, err := carv1.ReadHeader(reader, o.MaxAllowedHeaderSize)
 	if err != nil {
 		return fmt.Errorf("error reading car header: %w", err)
@@ -71,7 +77,7 @@ func LoadIndex(idx index.Index, r io.Reader, opts ...Option) error {
 		}
 
 		// Seek to the beginning of the inner CARv1 payload
-		_, err = reader.Seek(int64(v2h.DataOffset), io.SeekStart)
+		_, err = reader.Seek(start+int64(v2h.DataOffset), io.SeekStart)
 		if err != nil {
 			return err
 		}
@@ -109,7 +115,7 @@ func LoadIndex(idx index.Index, r io.Reader, opts ...Option) error {
 
 	// Subtract the data offset; if CARv1 this would be zero otherwise the value will come from the
 	// CARv2 header.
-	sectionOffset -= dataOffset
+	sectionOffset -= start + dataOffset
 
 	records := make([]index.Record, 0)
 	for {
@@ -159,7 +165,7 @@ func LoadIndex(idx index.Index, r io.Reader, opts ...Option) error {
 			return err
 		}
 		// Subtract the data offset which will be non-zero when reader represents a CARv2.
-		sectionOffset -= dataOffset
+		sectionOffset -= start + dataOffset
 	}
 
 	if err := idx.Load(records); err != nil {
